@@ -36,7 +36,7 @@ class Ctx:
         self.enums = env.source_enums()
 
 
-def sync_obligation(ctx, R, prover, U):
+def sync_obligation(ctx, R, prover, U, inline_put=False):
     ex = Executor(ctx.mir, ctx.enums, K=U + 3)
     ex.impl_index = ctx.idx
     stdmodels.install_core(ex)
@@ -100,6 +100,45 @@ def sync_obligation(ctx, R, prover, U):
     S = ex.summaries
     S["HubClient::connect"], S["HubClient::list"], S["HubClient::put"], S["HubClient::bye"] = s_connect, s_list, s_put, s_bye
     S["discover_local_fingerprints"] = s_scan
+    sends, recvs = [], []
+    if inline_put:
+        # HubClient::put is NOT summarised: its MIR body runs inside hub_sync's loop, the pipe is a recorder, the reply is ANY Response
+        del S["HubClient::put"]
+
+        def s_send(ex_, st, args, dest_ty, func, where):
+            oks = ex_.fresh_bool("send_ok")
+            rec(sends, st, ok=oks, msg=fsmodels._deep(ex_, st, args[1]))
+            return fsmodels.io_result(ex_, oks)
+
+        def s_recv(ex_, st, args, dest_ty, func, where):
+            okr = ex_.fresh_bool("recv_ok")
+            R_ = ctx.enums["Response"]
+            d = ex_.fresh_int("reply_kind", lo=0, hi=len(R_) - 1)
+            cm = ex_.fresh_bool("reply_committed")
+            pay = {v: [VOpaque("field")] * 2 for v in R_.values()}
+            pay[R_["PutResult"]] = [VBool(cm), VOpaque("current")]
+            rec(recvs, st, ok=okr, kind=d, committed=cm)
+            return fsmodels.io_result(ex_, okr, VEnum("Response", d, pay))
+        S["HubClient::send"], S["HubClient::recv"] = s_send, s_recv
+
+        def s_connect_i(ex_, st, args, dest_ty, func, where):
+            okc = ex_.fresh_bool("connect_ok")
+            rec(other, st, call="connect", ok=okc)
+            return fsmodels.io_result(ex_, okc, VStruct("HubClient", [VOpaque("child"), VStruct("Pipe", []), VOpaque("reader")]))
+        S["HubClient::connect"] = s_connect_i
+
+        def io_copy_to_pipe(ex_, st, args, dest_ty, func, where):
+            return fsmodels.io_result(ex_, ex_.fresh_bool("stream_ok"), VInt(ex_.fresh_int("streamed", ty="u64"), "u64"))
+
+        def flush(ex_, st, args, dest_ty, func, where):
+            return fsmodels.io_result(ex_, ex_.fresh_bool("flush_ok"))
+
+        def str_to_string(ex_, st, args, dest_ty, func, where):
+            return fsmodels._deep(ex_, st, args[0])
+        ex.models = [(re.compile(r"^std::io::copy::<std::fs::File, (std::io::)?BufWriter<(std::process::)?ChildStdin>>$"), io_copy_to_pipe, "io::copy(File -> pipe) (any outcome)"),
+                     (re.compile(r"^<(std::io::)?BufWriter<(std::process::)?ChildStdin> as (std::io::)?Write>::flush$"), flush, "BufWriter::flush (any outcome)"),
+                     (re.compile(r"^<str as ToString>::to_string$|^str::<impl str>::to_string$|^(alloc::)?string::<impl ToString for str>::to_string$"), str_to_string, "str::to_string"),
+                     ] + ex.models
 
     def ident(ex_, st, args, dest_ty, func, where):
         return fsmodels._deep(ex_, st, args[0])
@@ -108,6 +147,8 @@ def sync_obligation(ctx, R, prover, U):
         return VRef("val", val=fsmodels._deep(ex_, st, args[0]))
 
     def join_id(ex_, st, args, dest_ty, func, where):
+        if inline_put:
+            return pathv(PJ(fsmodels.path_term(ex_, st, args[0]), stdmodels._key_id(ex_, st, args[1])))
         return VStruct("JoinedId", [VInt(fsmodels.path_term(ex_, st, args[0]), "usize"), VInt(stdmodels._key_id(ex_, st, args[1]), "usize")])
 
     def unit(ex_, st, args, dest_ty, func, where):
@@ -129,6 +170,33 @@ def sync_obligation(ctx, R, prover, U):
     def need(u):
         same = z3.And(hub_p[u], *[x.t == y.t for x, y in zip(hub_fp[u][1], loc_fp[u][1])])
         return z3.And(loc_p[u], z3.Not(same))
+
+    if inline_put:
+        RQ, RS = ctx.enums["Request"], ctx.enums["Response"]
+        frames = []
+        for s_ in sends:
+            m = s_["msg"]
+            if RQ["Put"] not in m.pay:
+                continue
+            later = [r for r in recvs if r["seq"] > s_["seq"]]
+            r = min(later, key=lambda r_: r_["seq"]) if later else None
+            answered = z3.And(s_["ok"], r["guard"], r["ok"], r["kind"] == RS["PutResult"], r["committed"]) if r else z3.BoolVal(False)
+            frames.append({"guard": z3.And(s_["guard"], m.discr == RQ["Put"]), "rel": stdmodels._key_id(ex, st, m.pay[RQ["Put"]][0]), "answered": answered})
+        bye = _any(e["guard"] for e in other if e["call"] == "bye")
+        goals = {
+            "exit-0-only-if-the-run-completed-and-every-Put-frame-it-sent-was-answered-PutResult{committed:true}": z3.Implies(
+                ok, z3.And(bye, _all(z3.Implies(f["guard"], f["answered"]) for f in frames))),
+            "exit-0-only-if-a-Put-frame-went-out-for-every-local-file-the-hub-did-not-already-hold": z3.Implies(
+                ok, _all(z3.Implies(need(u), _any(z3.And(f["guard"], f["rel"] == u) for f in frames)) for u in range(U))),
+        }
+
+        def witness_i(name, model, neg):
+            # a reply other than PutResult{committed:true} with exit 0: natively, the hub holds a DIRECTORY where a local file must land
+            return conformance(R, [], "C13/hub_sync", "C13/hub_sync+put/%s" % name[:50], only_refusing=True)
+        prover.prove(ex, goals, "C13/hub_sync+put",
+                     "universe of %d ordered paths; HubClient::put executed from MIR inside hub_sync's loop: every pipe/file operation may fail and every reply is ANY Response" % U,
+                     ["hub_sync", "HubClient::put"], witness_i, covers={"put-frame-reachable": _any(f["guard"] for f in frames), "exit-0-reachable": ok})
+        return
 
     def exp_is_listed(p, u):
         e = p["expected"]
@@ -260,6 +328,8 @@ def put_obligation(ctx, R, prover):
                 z3.And(*[x.t == y for x, y in zip(fsmodels._deep(ex, st, f[3]).f, hb)]))))
         else:
             conds.append(z3.Not(s["guard"]))
+    if 0 in res.pay and not isinstance(res.pay[0][0], VBool):
+        raise Inconclusive("HubClient::put no longer returns io::Result<bool> (%s): its reply mapping is decided through hub_sync+put only" % type(res.pay[0][0]).__name__)
     goals = {
         "the-request-is-a-Put-frame-with-the-given-path,-expected-and-hash-and-the-file's-length": _all(conds),
         "the-file-is-streamed-after-the-frame,-flushed,-and-only-then-the-reply-is-read": z3.And(
@@ -319,8 +389,10 @@ def list_filter_obligation(R, prover, maxlen=8):
                  covers={"hidden-reachable": z3.Not(res.t), "shown-reachable": res.t})
 
 
-def conformance(R, extra, oid, key):
+def conformance(R, extra, oid, key, only_refusing=False):
     cases = list(extra) + scenarios()
+    if only_refusing:
+        cases = [c for c in cases if c.get("refusing")]
     for prof in ("dev", "release"):
         res = hubnative.run_cases(cases, prof)
         for c, r in zip(cases, res):
@@ -341,6 +413,8 @@ def scenarios():
             {"fn": "hub_sync", "local": {"a": c("1"), "b": c("2"), "c": c("3")}, "hub": {"a": c("x"), "b": c("2"), "z/keep": c("k")}},
             {"fn": "hub_sync", "local": {}, "hub": {"keep": c("k")}},
             {"fn": "hub_sync", "local": {"e": ""}, "hub": {"e": c("non-empty")}},
+            # the hub holds a DIRECTORY where a local regular file must land: the Put is answered Error (rename: EISDIR)
+            {"fn": "hub_sync", "local": {"a": c("1"), "notes": c("n"), "z": c("3")}, "hub": {"notes/todo": c("t")}, "refusing": True},
             {"fn": "hub_sync", "local": {".copiaignore": c("i"), ".copia-cache/index": c("x"), "sub/.copia": c("s"), "plain": c("p")}, "hub": {}}]
 
 
@@ -348,6 +422,12 @@ def judge(case, r):
     if "panic" in r or "crash" in r or "error" in r:
         return "panic/crash/error: %s" % str(r)[:200]
     first, second = r.get("first", {}), r.get("second", {})
+    if case.get("refusing"):
+        # the hub cannot take every file: the property only speaks about exit 0 - then EVERY local file is on the hub with its bytes
+        missing = [k for k, v in case["local"].items() if (r.get("hub_after_first") or {}).get(k) != v]
+        if first.get("ok") and missing:
+            return "hub_sync exited 0 although %s did not land on the hub (the hub refused it)" % missing
+        return None
     if not first.get("ok"):
         return "hub_sync failed on a quiet hub: %s" % first.get("err")
     want = dict(case["hub"])
@@ -475,6 +555,7 @@ def run(R, tier, seed):
     ctx = Ctx()
     prover = Prover(R, tier)
     for what, f in (("hub_sync", lambda: sync_obligation(ctx, R, prover, 2 if tier == "quick" else 3)), ("HubClient::put", lambda: put_obligation(ctx, R, prover)),
+                    ("hub_sync+put", lambda: sync_obligation(ctx, R, prover, 2, inline_put=True)),
                     ("serve-list-filter", lambda: list_filter_obligation(R, prover, 8 if tier == "quick" else 10))):
         try:
             f()
